@@ -13,18 +13,36 @@ from ..gen.project import Unit, build_system
 from .. import namesdump as nd
 
 THEOREMS = ["Names.resolve_direct_import", "Names.resolve_module_alias", "Names.resolve_registered",
-            "Names.relative_level_c04", "Names.expand_total"]
+            "Names.relative_level_c04", "Names.expand_total",
+            # the code that BUILDS the alias maps (PdModel/Imports.lean) against CPython's import machinery (PdModel/PyImp.lean)
+            "Imports.resolve_sound_partial", "Imports.resolve_from_definer", "Imports.resolve_via_module_alias",
+            "Imports.resolve_sound_unbound_counterexample", "Imports.alias_of_stmt", "Imports.def_registered",
+            "Imports.walk_path"]
 RULE = ("generated acyclic multi-package projects (globally unique definition names, one binding per name per scope; plain, "
-        "aliased, from, relative, star imports, package re-imports, imports in class bodies, nested classes). CPython imports "
-        "the project in a subprocess and reports, for every name bound in every module and class namespace and its attribute "
-        "extensions, the identity of the bound object; pydoctor's resolveName is judged against that (direct oracle) and its "
-        "expandName/resolveName answers are compared with the Lean Names model on the dumped state. Non-trivial = a dotted "
-        "name, or a first component bound by an import.")
+        "aliased, from, relative, star imports, package re-imports, imports in class bodies, nested classes, subclasses). CPython "
+        "imports the project in a subprocess and reports, for every name bound in every module and class namespace and its "
+        "attribute extensions (own and inherited), the identity of the bound object; pydoctor's resolveName is judged against that "
+        "(direct oracle) and its expandName/resolveName answers are compared with the Lean Names model on the dumped state. The "
+        "ABSTRACT project (a syntactic translation of the sources) is also run through the Lean model of the alias-map BUILDING code "
+        "(`imports build`: registry, contents, alias maps and resolutions vs the real System) and through the Lean model of CPython's "
+        "import machinery (`pyimp run`: namespaces and dotted names vs the interpreter); `imports wf` evaluates the theorems' "
+        "hypothesis WF on every project. Non-trivial = a dotted name, or a first component bound by an import.")
 ASSUMPTIONS = ["identity of classes/functions = their unique `ID:` docstring; of variables = their unique integer value; of modules = __name__",
-               "names contain no '.' (paths = dotted strings)"]
-PARTIAL = {"Names.resolve_sound": "soundness against CPython is decided by the direct differential oracle on every generated "
-                                  "name; the Lean theorems cover the two completeness clauses (direct import, module alias), "
-                                  "totality and the relative-level rule"}
+               "names contain no '.' (paths = dotted strings)",
+               "the source -> abstract-project translator (harness/gen/bindings.abstract_project, Python's own `ast`) is trusted: it "
+               "decides which abstract project a source tree is; both models are compared with reality through it"]
+PARTIAL = {"Imports.resolve_sound": "soundness is a theorem (Imports.resolve_sound_partial: for every WF project, every processing "
+                                    "order of pydoctor, every import order of Python, every module/class scope and every dotted name "
+                                    "that both sides bind, the same object) under WF = the property's quantifier (acyclic by a "
+                                    "topological index, imports inside the project, qualified names unique, each name bound once per "
+                                    "scope - a star import counted as binding every public name of its target and its __all__ -, root "
+                                    "module names reserved) PLUS two restrictions: no base classes (inherited attributes: oracle + "
+                                    "C05) and no __all__ re-export moves (oracle + C07), and for runs of the analysis without registry "
+                                    "exception / duplicate definition (`bad = false`; checked on every generated WF project by the "
+                                    "`wf-clean` stream, not yet derived from WF). Outside WF the direct differential oracle decides.",
+           "Imports.resolve_sound_unbound": "without 'Python binds the name' the implication is false (star import of a package's "
+                                            "not-yet-imported submodule: Imports.resolve_sound_unbound_counterexample) - outside the "
+                                            "property's quantifier, an observation"}
 
 
 def files_of(units: List[Unit]) -> Dict[str, str]:
@@ -175,6 +193,7 @@ def compare_lines(ctx: Ctx, stream: str, reqs: List[str], impls: List[Optional[s
 def run_abstract(ctx: Ctx, gens, pyres) -> None:
     b_reqs, b_impl, b_pay = [], [], []
     p_reqs, p_impl, p_pay = [], [], []
+    w_reqs, w_info = [], []
     for (g, units), py in zip(gens, pyres):
         src = {u.qname: u.source for u in units}
         try:
@@ -243,8 +262,26 @@ def run_abstract(ctx: Ctx, gens, pyres) -> None:
         b_impl.append("ok bad=%s | %s | %s" % ("true" if dupcalls else "false", pd_dump(system), " ".join(answers)))
         b_pay.append({"units": src})
         ctx.count("imports:queries", len(queries))
+        w_reqs.append("imports wf " + " ".join(toks) + " O|" + ",".join(str(g.rank[u.qname]) for u in units))
+        w_info.append((src, not dupcalls, py.get("error")))
     compare_lines(ctx, "imports-build", b_reqs, b_impl, b_pay)
     compare_lines(ctx, "pyimp-run", p_reqs, p_impl, p_pay)
+    # the hypothesis of the theorems on every generated project; a WF project must have had a clean analysis and an
+    # importable Python run (the two side conditions of Imports.resolve_sound_partial)
+    if ctx.model_ok and w_reqs:
+        outs = ctx.driver.run_parallel(w_reqs)
+        for out, (src, clean, pyerr) in zip(outs, w_info):
+            ctx.traces_validated += 1
+            flags = dict(t.split("=") for t in out.split()[1:]) if out.startswith("ok ") else {}
+            if not flags:
+                ctx.disagree("imports-wf", {"units": src}, out, "ok wf=...")
+                continue
+            ctx.count("wf:" + ("yes" if flags["wf"] == "1" else "no"))
+            for k, v in flags.items():
+                if k != "wf" and v == "0":
+                    ctx.count("wf:fails:" + k)
+            if flags["wf"] == "1" and (not clean or pyerr):
+                ctx.disagree("wf-clean", {"units": src}, "WF", "analysis not clean" if not clean else "python: " + str(pyerr))
 
 
 def run(ctx: Ctx) -> None:
